@@ -244,16 +244,22 @@ class _Delegate(PairingDelegate):
         return True
 
     async def confirm(self, auto=False):
+        if self.answer == 3:
+            await asyncio.sleep(0.5)          # the user takes a while, then rejects
+            return False
         return self.answer != 1
 
     async def compare_numbers(self, number, digits):
+        if self.answer == 3:
+            await asyncio.sleep(0.5)
+            return False
         return self.answer == 0
 
     async def display_number(self, number, digits):
         self.shared['number'] = number
 
     async def get_number(self):
-        if self.answer == 1:
+        if self.answer in (1, 3):
             return None
         for _ in range(50):
             if 'number' in self.shared:
@@ -315,12 +321,13 @@ def _expected_method(io_a, io_b, sc, mitm):
     return PK if isinstance(want, tuple) else want
 
 
-@harness(pre=['0 <= io_b <= 4 and 0 <= ans <= 2 and 0 <= who <= 1'], family='system-pairing', kernels=K, timeout=(240, 900), twin=True,
+@harness(pre=['0 <= io_b <= 4 and 0 <= ans <= 3 and 0 <= who <= 1'], family='system-pairing', kernels=K, timeout=(240, 900), twin=True,
          grids=[(('quick',), {'io_a': [0, 1, 2, 3, 4], 'sc_a': [0, 1], 'sc_b': [1], 'mitm': [1], 'bond_a': [1], 'bond_b': [1]}),
+                (('quick',), {'io_a': [1, 3], 'sc_a': [1], 'sc_b': [1], 'mitm': [0], 'bond_a': [0, 1], 'bond_b': [0, 1]}),
                 (('thorough',), {'io_a': [0, 1, 2, 3, 4], 'sc_a': [0, 1], 'sc_b': [0, 1], 'mitm': [0, 1, 2], 'bond_a': [0, 1], 'bond_b': [0, 1]})],
-         bounds='two full stacks: initiator IO (per condition) x responder IO (symbolic) x SC on each side x MITM {none, both, initiator only} x bonding on each side x user answer {accept, reject, wrong passkey / numbers differ} given by the initiator or the responder (symbolic): pairing never hangs; both sides end the same way; on success the link is encrypted on both ends, the stored keys have equal values and authenticated == (prescribed method != Just Works); on failure nothing is stored')
+         bounds='two full stacks: initiator IO (per condition) x responder IO (symbolic) x SC on each side x MITM {none, both, initiator only} x bonding on each side x user answer {accept, reject, wrong passkey / numbers differ, late reject} given by the initiator or the responder (symbolic): pairing never hangs; both sides end the same way; on success the link is encrypted on both ends, the stored keys have equal values and authenticated == (prescribed method != Just Works); on failure nothing is stored')
 def system_pairing(io_b: int, ans: int, who: int, io_a: int, sc_a: int, sc_b: int, mitm: int, bond_a: int, bond_b: int) -> bool:
-    io_b, ans, who = C(io_b, 0, 4), C(ans, 0, 2), C(who, 0, 1)
+    io_b, ans, who = C(io_b, 0, 4), C(ans, 0, 3), C(who, 0, 1)
     with untraced():
         mitm_a, mitm_b = (mitm >= 1), (mitm == 1)
         r = _pairing_run(io_a, io_b, bool(sc_a), bool(sc_b), mitm_a, mitm_b, bool(bond_a), bool(bond_b), ans if who == 0 else 0, ans if who == 1 else 0)
